@@ -60,6 +60,14 @@ def make_receiver(recipe):
             t.filter(h[2], axis=h[1], inplace=True)
         elif op == "prefilter_copy":
             t = t.filter(h[2], axis=h[1], inplace=False)
+        elif op == "prefilter_pred":
+            # a predicate nothing (h[3]=False) / everything (True) passes, in place (h[2]) or copying
+            verdict = bool(h[3])
+            r = t.filter(lambda v, i, m: verdict, axis=h[1], inplace=bool(h[2]))
+            t = t if h[2] else r
+        elif op == "remove_empty":
+            r = t.remove_empty(axis=h[1], inplace=bool(h[2]))
+            t = t if h[2] else r
         elif op == "read":
             # read/export through every accessor that might remember something about the current objects
             ax = h[1]
@@ -1274,6 +1282,68 @@ def hardening_cases(ctx, batch, impls, n_cases, first=True):
                       ("shared-predicate",), opts={"shared": True})
 
 
+def degenerate_cases(ctx, batch, impls, shard=(0, 1)):
+    """tables with ONE EMPTY AXIS (0 x k, k x 0) obtained by every route — constructed with an empty ID list,
+    filtered to nothing by an empty collection or by a predicate nothing passes (in place and copying),
+    remove_empty of an all-zero table — then head(n, m) with sizes below, equal to and above the populated axis,
+    filter (IDs in non-axis order, predicates, invert) and remove_empty on the populated and on the empty axis"""
+    full = small_spec([[1, 2, 0, 4, 5, 0, 7], [0, 0, 0, 0, 0, 0, 0], [3, 0, 1, 0, 2, 0, 6], [0, 9, 0, 0, 0, 0, 8]], 1)
+    plain = small_spec([[1, 0], [0, 2], [3, 4]], 0)
+    zero = small_spec([[0, 0, 0], [0, 0, 0]], 1)
+    k = 0
+    for spec in (full, plain, zero):
+        for empty_axis in ("observation", "sample"):
+            pop_axis = "sample" if empty_axis == "observation" else "observation"
+            pop_ids = spec["samp"] if empty_axis == "observation" else spec["obs"]
+            cons = dict(spec)
+            if empty_axis == "observation":
+                cons.update(obs=[], rows=[], omd=None)
+            else:
+                cons.update(samp=[], rows=[[] for _ in spec["obs"]], smd=None)
+            routes = [("constructed", {"spec": cons, "route": "dense"}),
+                      ("constructed-csr", {"spec": cons, "route": "csr"}),
+                      ("filter-none-inplace", {"spec": spec, "route": "dense", "hist": [["prefilter", empty_axis, []]]}),
+                      ("filter-none-copy", {"spec": spec, "route": "csc", "hist": [["prefilter_copy", empty_axis, []]]}),
+                      ("pred-none-inplace", {"spec": spec, "route": "perm_sort",
+                                             "hist": [["prefilter_pred", empty_axis, True, False]]}),
+                      ("pred-none-copy", {"spec": spec, "route": "dense",
+                                          "hist": [["prefilter_pred", empty_axis, False, False]]})]
+            if spec is zero:
+                routes += [("remove-empty-inplace", {"spec": spec, "route": "dense",
+                                                     "hist": [["remove_empty", empty_axis, True]]}),
+                           ("remove-empty-copy", {"spec": spec, "route": "csr",
+                                                  "hist": [["remove_empty", empty_axis, False]]})]
+            kk = len(pop_ids)
+            sizes = sorted(set([1, max(1, kk - 1), kk, kk + 2]))
+            for rname, recipe in routes:
+                k += 1
+                if k % shard[1] != shard[0]:
+                    continue
+                if k % 2:
+                    recipe = dict(recipe, poke=k)
+                tags = ("degenerate", "empty=" + empty_axis, "route=" + rname)
+                ctx.count("degenerate:route=%s" % rname)
+                impl, mods = impls[k % len(impls)]
+                for j, sz in enumerate(sizes):
+                    for other in (1, 3):
+                        n, m = (other, sz) if empty_axis == "observation" else (sz, other)
+                        do_head(ctx, batch, impl, mods, recipe, n, m, tags,
+                                opts={"style": "kw"} if (j + other) % 2 else None)
+                for inplace in (False, True):
+                    F = lambda ax, keep, form, inv=False: do_filter(ctx, batch, impl, mods, recipe, ax, keep, form, inv,
+                                                                    inplace, tags, deep=True)
+                    F(pop_axis, {"kind": "ids", "ids": [pop_ids[-1], pop_ids[0]]}, "list")
+                    F(pop_axis, {"kind": "ids", "ids": pop_ids[1:]}, "array", True)
+                    F(pop_axis, pred_desc({"name": "id_in", "ids": pop_ids[:2]}), "pred")
+                    F(pop_axis, pred_desc({"name": "sum_gt", "k": "-1"}), "pred", True)
+                    F(pop_axis, {"kind": "ids", "ids": [pop_ids[0], pop_ids[0] + "x"]}, "tuple")
+                    F(empty_axis, {"kind": "ids", "ids": []}, "list")
+                    F(empty_axis, pred_desc({"name": "true"}), "pred")
+                    F(empty_axis, {"kind": "ids", "ids": [pop_ids[0]]}, "list")      # an ID of the other axis: unknown
+                    for ax in (pop_axis, empty_axis, "whole"):
+                        do_remove_empty(ctx, batch, impl, mods, recipe, ax, inplace, tags)
+
+
 # ----------------------------------------------------------------------------- fixed corpus (repaired defects first)
 def corpus(ctx, batch, impls):
     # 7ace4ade: predicate filter after sort_order(['s3','s1','s2']) was handed [0,1,2]-like vectors
@@ -1330,7 +1400,8 @@ def _run(ctx):
                 "empty=raise/warn/call in force during the call; every spelling of the flags (int, numpy bool, "
                 "positional), head defaults/keywords, unknown axis names; look-alike ID texts and "
                 "core.tricky_unknown_ids; one predicate function object re-used across tables; receivers left in a "
-                "random internal layout by core.poke_layout (about a third of all cases). non-trivial = table with >= 2 cells / matrix with >= 1 vector; "
+                "random internal layout by core.poke_layout (about a third of all cases); tables with one empty axis by "
+                "every route x head sizes below/equal/above the populated axis, filter and remove_empty on both axes. non-trivial = table with >= 2 cells / matrix with >= 1 vector; "
                 "distinct = distinct (receiver recipe, request, implementation)")
     ctx.trusted = ["scipy tocsr()/tocsc()/sort_indices()/transpose/toarray are external: the layout handed to the "
                    "model is read from scipy, sort_indices is modelled by its contract (sortIndices)",
@@ -1355,6 +1426,7 @@ def _run(ctx):
         chain_cases(ctx, batch, impls, ctx.worker)
         wide_cases(ctx, batch, impls, max(40, 160 // wn))
         hardening_cases(ctx, batch, impls, max(20, 120 // wn))
+        degenerate_cases(ctx, batch, impls, ctx.worker)
         random_cases(ctx, batch, impls, 1200 // wn, 6)
     else:
         # ./check shards the thorough tier over WORKERS processes: grid number k belongs to worker k mod n
@@ -1371,6 +1443,7 @@ def _run(ctx):
         chain_cases(ctx, batch, impls, ctx.worker)
         wide_cases(ctx, batch, impls, 1200 // wn)
         hardening_cases(ctx, batch, impls, 1200 // wn)
+        degenerate_cases(ctx, batch, impls, ctx.worker)
         random_cases(ctx, batch, impls, 12000 // wn, 8)
     batch.flush()
     shards.collect()
